@@ -177,6 +177,13 @@ func (p *C12) Generate(seed uint64, run int) *Case {
 		if r.Chance(1, 2) {
 			add("delivery", func(st *Step) { st.Stdin.Plan = simrt.Plan{Chunks: []int{1}, EOFWithData: r.Chance(1, 2)} })
 		}
+		if r.Chance(1, 2) {
+			// a slow upstream: same bytes, late
+			add("delivery:slow", func(st *Step) {
+				st.Stdin.Plan = GenPlan(r)
+				st.Stdin.Plan.DelaysUs = GenDelays(r)
+			})
+		}
 		add("inpath:dash", func(st *Step) { st.Argv = append(st.Argv, "-") })
 		if r.Chance(1, 3) {
 			// standard input is a redirected regular file rather than a pipe
@@ -379,6 +386,8 @@ func dimOf(note string) string {
 		return "outpath"
 	case strings.HasPrefix(note, "maporder"):
 		return "maporder"
+	case strings.HasPrefix(note, "delivery"):
+		return "delivery"
 	case strings.HasPrefix(note, "history"):
 		return "history"
 	}
